@@ -255,8 +255,12 @@ def listMax : List Int → Int
   | [] => 0
   | x :: xs => xs.foldl max x
 
-/-- `for bs in l: mask += 1 << bs` (all elements already known to be in 0..max) -/
-def maskSum (l : List Int) : Int := (l.map fun b => ((1 <<< b.toNat : Nat) : Int)).sum
+/-- `for bs in l: mask |= 1 << bs` (all elements already known to be in 0..max).  This is the REPAIRED code
+(fixes/D17-c08.patch); the order of the (sorted) list is irrelevant for the result. -/
+def maskOr (l : List Int) : Nat := l.foldl (fun m b => m ||| (1 <<< b.toNat)) 0
+
+/-- the unrepaired code: `for bs in l: mask += 1 << bs` — a duplicated id carries into the next bit -/
+def maskSumLive (l : List Int) : Nat := l.foldl (fun m b => m + (1 <<< b.toNat)) 0
 
 /-- the validation of one base-station list: after `l.sort()`, `l[0]` is the minimum and `l[-1]` the maximum -/
 def lhListBad (l : List Int) : Bool :=
@@ -352,13 +356,14 @@ def emit (ver : Int) : Call → Except PyErr (List Packet)
     else
       build Port.COMMANDER_GENERIC Cmdr.SET_SETPOINT_CHANNEL hover_fmt1 [k Cmdr.TYPE_HOVER, vx, vy, yawrate, z]
   | .fullState pos vel acc quat rates => do
-    let (x, y, z) ← pos.mm
-    let (vx, vy, vz) ← vel.mm
-    let (ax, ay, az) ← acc.mm
-    let (rr, pr, yr) ← rates.mm
+    let p ← pos.mm          -- x, y, z = vector_to_mm_16bit(pos)
+    let v ← vel.mm
+    let a ← acc.mm
+    let r ← rates.mm        -- rr, pr, yr = vector_to_mm_16bit([rollrate, pitchrate, yawrate])
     let oc ← compressQuat quat
     build Port.COMMANDER_GENERIC defaultChan fullState_fmt0
-      [k Cmdr.TYPE_FULL_STATE, ki x, ki y, ki z, ki vx, ki vy, ki vz, ki ax, ki ay, ki az, ki oc, ki rr, ki pr, ki yr]
+      [k Cmdr.TYPE_FULL_STATE, ki p.1, ki p.2.1, ki p.2.2, ki v.1, ki v.2.1, ki v.2.2, ki a.1, ki a.2.1, ki a.2.2, ki oc,
+       ki r.1, ki r.2.1, ki r.2.2]
   | .position x y z yaw =>
     build Port.COMMANDER_GENERIC Cmdr.SET_SETPOINT_CHANNEL position_fmt0 [k Cmdr.TYPE_POSITION, x, y, z, yaw]
   | .hlGroupMask gm =>
@@ -402,7 +407,7 @@ def emit (ver : Int) : Call → Except PyErr (List Packet)
   | .lhPersist geo calib =>
     if lhListBad geo then .error .other
     else if lhListBad calib then .error .other
-    else build Port.LOCALIZATION Loc.GENERIC_CH lhPersist_fmt0 [k Loc.LH_PERSIST_DATA, ki (maskSum geo), ki (maskSum calib)]
+    else build Port.LOCALIZATION Loc.GENERIC_CH lhPersist_fmt0 [k Loc.LH_PERSIST_DATA, ki (maskOr geo), ki (maskOr calib)]
   | .contWave enabled => do
     let d ← tupleBytes [k Plat.PLATFORM_SET_CONT_WAVE, enabled]
     send (mkPacket Port.PLATFORM Plat.PLATFORM_COMMAND d)
